@@ -2,6 +2,7 @@ package main
 
 import (
 	"fmt"
+	"strings"
 	"go/ast"
 	"go/token"
 	"go/types"
@@ -95,9 +96,25 @@ func (x *Exec) calleeOf(c *ast.CallExpr) *types.Func {
 	return nil
 }
 
+func (x *Exec) isOpaqueCallee(fn *types.Func) bool {
+	if x.con == nil || fn == nil {
+		return false
+	}
+	for _, n := range strings.Split(x.con.Opts["opaque-calls"], ",") {
+		n = strings.TrimSpace(n)
+		if n != "" && (n == fn.Name() || n == "*") {
+			return true
+		}
+	}
+	return false
+}
+
 func (x *Exec) needsInline(c *ast.CallExpr) bool {
 	fn := x.calleeOf(c)
 	if fn == nil || fn.Pkg() == nil || !x.L.target[fn.Pkg().Path()] {
+		return false
+	}
+	if x.isOpaqueCallee(fn) {
 		return false
 	}
 	if x.lookupContract(fn) != nil {
